@@ -104,6 +104,19 @@ def handleC02 (cmd : String) (args : List Sexp) : Option Sexp :=
   | "c02.td", [op, tree] => do
       let op ← C02D.op? op; let td ← C02D.tree? tree
       pure (C02D.runTd op td)
+  -- two single-result ops in a row: the second acts on the result of the first (`self` = the op returned the tensordict itself)
+  | "c02.chain", [op1, op2, tree] => do
+      let op1 ← C02D.op? op1; let op2 ← C02D.op? op2; let td ← C02D.tree? tree
+      match op1, td with
+      | .inl o1, .node bs names es =>
+        let mid : Except Err (TD Nat) := match opMeta o1 bs names with
+          | .error e => .error e
+          | .ok none => .ok td
+          | .ok (some _) => tdNode o1 bs names es
+        match mid with
+        | .error e => pure (tagged "err1" [.atom e.toString])
+        | .ok m => pure (C02D.runTd op2 m)
+      | _, _ => pure (C02D.errSexp .type)
   | "c02.repeat", [.list reps, tree] => do
       let reps ← ints? reps; let td ← C02D.tree? tree
       match td with
